@@ -443,4 +443,161 @@ theorem applyItem_sim (cfg : Cfg) (old : Option MRec) (it : Item)
       | true => rfl
       | false => exact absurd (by rw [key hr]) hne
 
+/-! ### `SaveFunction` -/
+
+theorem absI_insert (i : Inst) (k : Key) (t : MRec) :
+    AL.mapV MRec.abs (AL.insert k t i.recs) = AL.insert k t.abs (absI i) := by
+  rw [absI, AL.insert_mapV]
+
+theorem cleared_abs (cfg : Cfg) (t : MRec) :
+    (if cfg.resetsFlags then { t with changed := false, expChanged := false } else t).abs = t.abs := by
+  cases cfg.resetsFlags <;> rfl
+
+theorem cleared_ok (cfg : Cfg) (t : MRec) (hwf : t.c.WF) (hch : cfg.resetsFlags = false → True) :
+    RecOK cfg (if cfg.resetsFlags then { t with changed := false, expChanged := false } else t) := by
+  cases h : cfg.resetsFlags with
+  | true => exact ⟨hwf, fun _ => rfl⟩
+  | false => exact ⟨hwf, fun e => by rw [h] at e; cases e⟩
+
+theorem instOK_insert (cfg : Cfg) (i : Inst) (k : Key) (t : MRec) (hi : InstOK cfg i) (ht : RecOK cfg t)
+    (i' : Inst) (hr : i'.recs = AL.insert k t i.recs) (hf : i'.inflight = []) : InstOK cfg i' := by
+  refine ⟨hf, fun p hp => ?_⟩
+  rw [hr] at hp
+  rcases AL.mem_insert k t i.recs p hp with h | h
+  · rw [h]; exact ht
+  · exact hi.recs p h
+
+theorem save_new (cfg : Cfg) (i : Inst) (k : Key) (t : MRec) (raised : Bool)
+    (hi : InstOK cfg i) (hwf : t.c.WF) (hf : AL.find k i.recs = none) :
+    InstOK cfg (Model.save cfg i k t raised).1 ∧
+    absI (Model.save cfg i k t raised).1 = AL.insert k t.abs (absI i) ∧
+    (Model.save cfg i k t raised).2.1 = .new ∧ (Model.save cfg i k t raised).1.recs ≠ [] := by
+  simp only [Model.save, hf]
+  refine ⟨?_, ?_, by first | rfl | trivial, AL.insert_ne_nil _ _ _⟩
+  · exact instOK_insert cfg i k _ hi (cleared_ok cfg t hwf (fun _ => trivial)) _ rfl (by simp [hi.infl, AL.erase])
+  · simp only [absI]; rw [← AL.insert_mapV, cleared_abs]
+
+theorem save_old (cfg : Cfg) (i : Inst) (k : Key) (t told : MRec) (raised : Bool)
+    (hi : InstOK cfg i) (hwf : t.c.WF) (hf : AL.find k i.recs = some told)
+    (hch : t.changed = (told.changed || raised))
+    (hiff : raised = true ↔ t.abs ≠ told.abs) (hsame : raised = false → t = told)
+    (hq : Q cfg (Model.save cfg i k t raised).2.2) :
+    InstOK cfg (Model.save cfg i k t raised).1 ∧
+    (if t.abs = told.abs then
+       absI (Model.save cfg i k t raised).1 = absI i ∧ (Model.save cfg i k t raised).2.1 = .same
+     else
+       absI (Model.save cfg i k t raised).1 = AL.insert k t.abs (absI i) ∧ (Model.save cfg i k t raised).2.1 = .upd) ∧
+    ((Model.save cfg i k t raised).1.recs = [] → i.recs = []) := by
+  have htold : RecOK cfg told := hi.recs (k, told) (AL.find_mem k told i.recs hf)
+  simp only [Model.save, hf] at hq ⊢
+  cases hc : t.changed with
+  | true =>
+    simp only [hc, if_true] at hq ⊢
+    have hr : raised = true := by
+      cases hrz : raised with
+      | true => rfl
+      | false =>
+        rw [hrz] at hq
+        simp only [Bool.false_eq_true, if_false] at hq
+        refine Q.absurd_tag hq (fun hg => ?_)
+        have := htold.clean (Cfg.good_resets hg)
+        rw [hc, this, hrz] at hch; cases hch
+    have hne : t.abs ≠ told.abs := hiff.mp hr
+    rw [if_neg hne]
+    refine ⟨?_, ⟨?_, by first | rfl | trivial⟩, fun h => absurd h (AL.insert_ne_nil _ _ _)⟩
+    · exact instOK_insert cfg i k _ hi (cleared_ok cfg t hwf (fun _ => trivial)) _ rfl hi.infl
+    · simp only [absI]; rw [← AL.insert_mapV, cleared_abs]
+  | false =>
+    simp only [hc, Bool.false_eq_true, if_false] at hq ⊢
+    have hr : raised = false := by
+      cases hrz : raised with
+      | false => rfl
+      | true => rw [hc, hrz] at hch; simp at hch
+    have heq : t = told := hsame hr
+    subst heq
+    simp only [if_true]
+    exact ⟨hi, ⟨by first | rfl | trivial, by first | rfl | trivial⟩, fun h => h⟩
+
+theorem createTreasure_eq (i : Inst) (k : Key) (hinfl : i.inflight = []) :
+    Model.createTreasure i k = ((AL.find k i.recs).getD {}, []) := by
+  unfold Model.createTreasure
+  cases h : AL.find k i.recs with
+  | some t => rfl
+  | none => simp [hinfl, AL.find]
+
+/-! ### `Set` -/
+
+theorem find_absI (i : Inst) (k : Key) : AL.find k (absI i) = (AL.find k i.recs).map MRec.abs := by
+  simp [absI, AL.find_mapV]
+
+theorem has_absI (i : Inst) (k : Key) : AL.has k (absI i) = AL.has k i.recs := by
+  simp [absI, AL.has_mapV]
+
+theorem setOne_sim (cfg : Cfg) (create over : Bool) (i : Inst) (it : Item) (hi : InstOK cfg i)
+    (hq : Q cfg (Model.setOne cfg create over i it).2.2) :
+    InstOK cfg (Model.setOne cfg create over i it).1 ∧
+    (absI (Model.setOne cfg create over i it).1, (Model.setOne cfg create over i it).2.1)
+      = Spec.setOne create over (absI i) it ∧
+    ((Model.setOne cfg create over i it).1.recs = [] → i.recs = []) := by
+  unfold Model.setOne at hq ⊢
+  unfold Spec.setOne
+  rw [find_absI]
+  cases hf : AL.find it.key i.recs with
+  | none =>
+    have hh : AL.has it.key i.recs = false := by simp [AL.has, hf]
+    simp only [hh, Bool.not_false, Bool.and_true, Option.map_none] at hq ⊢
+    cases create with
+    | false => simp; exact hi
+    | true =>
+      simp only [Bool.not_true, Bool.false_eq_true, if_false, Bool.and_false] at hq ⊢
+      rw [createTreasure_eq i it.key hi.infl, hf] at hq ⊢
+      simp only [Option.getD_none] at hq ⊢
+      have hq1 : Q cfg (Model.applyItem cfg ({} : MRec) it).2.2 := hq.left.right
+      obtain ⟨ha, hw, _, _⟩ := applyItem_sim cfg none it (fun t h => by cases h) hq1
+      simp only [Option.getD_none, Option.map_none] at ha hw
+      obtain ⟨s1, s2, s3, s4⟩ := save_new cfg i it.key (Model.applyItem cfg {} it).1 (Model.applyItem cfg {} it).2.1 hi hw hf
+      refine ⟨s1, ?_, fun h => absurd h s4⟩
+      rw [s2, s3, ha]; simp
+  | some told =>
+    have hh : AL.has it.key i.recs = true := by simp [AL.has, hf]
+    simp only [hh, Bool.not_true, Bool.and_false, Bool.false_eq_true, if_false, Bool.and_true, Option.map_some] at hq ⊢
+    cases over with
+    | false => simp; exact hi
+    | true =>
+      simp only [Bool.not_true, Bool.false_eq_true, if_false] at hq ⊢
+      rw [createTreasure_eq i it.key hi.infl, hf] at hq ⊢
+      simp only [Option.getD_some] at hq ⊢
+      have hq1 : Q cfg (Model.applyItem cfg told it).2.2 := hq.left.right
+      have hq2 := hq.right
+      have htold : RecOK cfg told := hi.recs (it.key, told) (AL.find_mem _ _ _ hf)
+      obtain ⟨ha, hw, hc, h4⟩ := applyItem_sim cfg (some told) it (fun t h => by cases h; exact htold.wf) hq1
+      simp only [Option.getD_some, Option.map_some] at ha hw hc
+      obtain ⟨hiff, hsame⟩ := h4 told rfl
+      obtain ⟨s1, s2, s3⟩ := save_old cfg i it.key (Model.applyItem cfg told it).1 told
+        (Model.applyItem cfg told it).2.1 hi hw hf hc hiff hsame hq2
+      refine ⟨s1, ?_, s3⟩
+      rw [← ha]
+      by_cases he : (Model.applyItem cfg told it).1.abs = told.abs
+      · rw [if_pos he] at s2; rw [if_pos he, s2.1, s2.2]
+      · rw [if_neg he] at s2; rw [if_neg he, s2.1, s2.2]
+
+theorem setLoop_sim (cfg : Cfg) (create over : Bool) (items : List Item) :
+    ∀ (i : Inst), InstOK cfg i → Q cfg (Model.setLoop cfg create over i items).2.2 →
+    InstOK cfg (Model.setLoop cfg create over i items).1 ∧
+    (absI (Model.setLoop cfg create over i items).1, (Model.setLoop cfg create over i items).2.1)
+      = Spec.setAll create over (absI i) items ∧
+    ((Model.setLoop cfg create over i items).1.recs = [] → i.recs = []) := by
+  induction items with
+  | nil => intro i hi _; exact ⟨hi, rfl, fun h => h⟩
+  | cons it rest ih =>
+    intro i hi hq
+    simp only [Model.setLoop] at hq ⊢
+    obtain ⟨a1, a2, a3⟩ := setOne_sim cfg create over i it hi hq.left
+    obtain ⟨b1, b2, b3⟩ := ih (Model.setOne cfg create over i it).1 a1 hq.right
+    refine ⟨b1, ?_, fun h => a3 (b3 h)⟩
+    simp only [Spec.setAll]
+    rw [← a2]
+    simp only
+    rw [← b2]
+
 end Hv.Data
